@@ -317,6 +317,83 @@ func runC28(c *an.Ctx) {
 		c.Check(good, "O2", "R-FLOW", an.FuncName(sm), "Segments()=StringToSegments(String())", sm.Pos(), "segments derive from the printed string", "path.Segments() no longer derives from the stored string: String() and Segments() can disagree")
 	}
 
+	// ---- O2 SegmentsToString prints "/" + Join(segments, "/") (the bare join only where it is empty): NewPath stores its
+	// result as the printed form, which must start with "/" to be accepted again
+	{
+		isJoin := func(v ssa.Value) (*ssa.Call, bool) {
+			call, ok := v.(*ssa.Call)
+			if !ok || len(call.Call.Args) != 2 {
+				return nil, false
+			}
+			ci := an.Callee(call)
+			return call, ci.Pkg == "strings" && ci.Name == "Join" && c28IsStr(call.Call.Args[1], "/") && len(seg2s.Params) == 1 && c25RootsIn(call.Call.Args[0], []ssa.Value{seg2s.Params[0]})
+		}
+		good, nSlash := true, 0
+		why := ""
+		var visit func(v ssa.Value, pred, blk *ssa.BasicBlock, depth int)
+		visit = func(v ssa.Value, pred, blk *ssa.BasicBlock, depth int) {
+			if ph, ok := v.(*ssa.Phi); ok && depth < 4 {
+				for i, e := range ph.Edges {
+					visit(e, ph.Block().Preds[i], ph.Block(), depth+1)
+				}
+				return
+			}
+			if jc, ok := isJoin(v); ok {
+				// the bare join: only where it is known empty
+				empty := c25RelEdges(seg2s, func(x ssa.Value) bool { return x == ssa.Value(jc) }, func(x ssa.Value) bool { return c28IsStr(x, "") }, c25EQ, 0)
+				if pred == nil || !c27EdgeKnown(seg2s, pred, blk, empty) {
+					good, why = false, "the joined segments are returned without the leading \"/\" although they may be non-empty"
+				}
+				return
+			}
+			if parts := c28Concat(v); len(parts) == 2 && c28IsStr(parts[0], "/") {
+				if _, ok := isJoin(parts[1]); ok {
+					nSlash++
+					return
+				}
+			}
+			if k, ok := an.ConstOf(v); ok && k.Kind() == constant.String && constant.StringVal(k) == "" {
+				return
+			}
+			good, why = false, "a return value is neither \"/\"+strings.Join(segments, \"/\") nor the empty join"
+		}
+		for _, r := range an.Returns(seg2s) {
+			visit(r.Results[0], nil, nil, 0)
+		}
+		c.Check(good && nSlash > 0, "O2", "R-FLOW", an.FuncName(seg2s), "SegmentsToString = \"/\" + Join(segments, \"/\")", seg2s.Pos(), "printed segments start with \"/\"", "SegmentsToString: "+why+": the printed form NewPath stores does not start with \"/\" and is rejected (or parsed differently) when parsed again")
+	}
+	// ---- O2 the immutable wrapper prints, names and splits exactly like the path it wraps: String/Namespace/Segments
+	// return the wrapped Path's method of the same name (the root CID is extra information, never the source of the text)
+	if ipT := p.Named(pp, "ImmutablePath"); ipT != nil {
+		if st, ok := ipT.Underlying().(*types.Struct); ok {
+			var inner *types.Var
+			for i := 0; i < st.NumFields(); i++ {
+				if an.TypeIs(st.Field(i).Type(), pp, "Path") {
+					inner = st.Field(i)
+				}
+			}
+			for _, mn := range []string{"String", "Namespace", "Segments"} {
+				m := p.Func(pp, "ImmutablePath", mn)
+				if m == nil || inner == nil {
+					continue
+				}
+				good, n := true, 0
+				for _, r := range an.Returns(m) {
+					n++
+					call, ok := c25RootCall(r.Results[0], an.M("", "", mn))
+					if !ok || !call.Call.IsInvoke() {
+						good = false
+						continue
+					}
+					if f, _ := c28FieldRead(call.Call.Value); f != inner {
+						good = false
+					}
+				}
+				c.Check(good && n > 0, "O2", "R-FLOW", an.FuncName(m), mn+"() of the immutable wrapper = "+mn+"() of the wrapped path", m.Pos(), "delegates to the wrapped path", "ImmutablePath."+mn+"() does not return the wrapped path's "+mn+"(): the immutable flavour of a parsed path prints, names or splits differently from what was parsed (e.g. the remainder after the root is lost)")
+			}
+		}
+	}
+
 	// ---- O3 names
 	c28Names(c, ns["IPNSNamespace"])
 }
